@@ -14,12 +14,12 @@ import (
 
 type Result struct {
 	*Obligation
-	Status  string  `json:"status"` // discharged | failed | unknown
-	Solver  string  `json:"solver"`
-	Seconds float64 `json:"seconds"`
-	Answer  string  `json:"answer"`
-	Model   string  `json:"model,omitempty"`
-	Query   string  `json:"query_file,omitempty"`
+	Status  string        `json:"status"` // discharged | failed | unknown
+	Solver  string        `json:"solver"`
+	Seconds float64       `json:"seconds"`
+	Answer  string        `json:"answer"`
+	Model   string        `json:"model,omitempty"`
+	Query   string        `json:"query_file,omitempty"`
 	Replay  *ReplayResult `json:"replay,omitempty"`
 }
 
@@ -303,6 +303,39 @@ func solveAll(vcs []*VC, dir string, workers, timeoutS, seed int, keepQueries bo
 	}
 	close(ch)
 	wg.Wait()
+	// reachability probes: a return that cannot be reached is not a failure by itself (the precondition
+	// may exclude it), but more unreachable returns than the contract allows (`unreachable N`) means
+	// that part of the function is verified vacuously
+	byFunc := map[string][]*Result{}
+	var order []string
+	for _, r := range results {
+		if r.ReachProbe {
+			if _, ok := byFunc[r.Func]; !ok {
+				order = append(order, r.Func)
+			}
+			byFunc[r.Func] = append(byFunc[r.Func], r)
+		}
+	}
+	for _, f := range order {
+		var dead []string
+		allow := 0
+		for _, r := range byFunc[f] {
+			allow = r.Allow
+			if r.Status == "failed" {
+				dead = append(dead, strings.TrimSuffix(strings.TrimPrefix(r.Name, "return "), " is reachable under the precondition")+"@"+r.Pos)
+			}
+		}
+		for _, r := range byFunc[f] {
+			if r.Status == "failed" {
+				r.Answer = "unreachable"
+				if len(dead) <= allow {
+					r.Status = "discharged"
+				} else {
+					r.Name += fmt.Sprintf(" — %d returns are unreachable (%s), the contract allows %d: code behind them is verified vacuously", len(dead), strings.Join(dead, ", "), allow)
+				}
+			}
+		}
+	}
 	return results
 }
 
